@@ -7,139 +7,404 @@ import (
 	"golang.org/x/tools/go/ssa"
 )
 
-// c08Sponge: the absorb and squeeze bookkeeping of the legacy Keccak sponge.
-// (*state).Write and (*state).Read are interpreted (slices by length, the
-// fields n / rate / state tracked, permute summarised as "n = 0") for both
-// legacy rates, buffer fill levels 0, 1, rate-1 (and rate for Read) and input
-// or output lengths around zero, one and two blocks. Absorbing: all len(p)
-// bytes are XORed into the rate part, in order, the permutation runs exactly
-// floor((n+len)/rate) times — in particular immediately when a write fills
-// the block exactly, so that "there is at least one byte of space" holds when
-// the padding is applied — and n ends at (n+len) mod rate < rate. Squeezing:
-// exactly len(out) bytes are copied out of the rate part, and the permutation
-// runs exactly when the rate part has been squeezed dry before more output is
-// taken.
-func c08Sponge(c *Ctx) {
-	for _, dir := range []string{"Write", "Read"} {
-		f := c.fn("sha3", "(*state)."+dir)
-		if f == nil {
-			continue
+// c08Legacy: the legacy Keccak sponge, decided by interpretation.
+//
+// Write, Read and Sum of the legacy sponge record are interpreted (see
+// c08_model.go) for both legacy rates, for fill levels 0, 1, rate-2, rate-1
+// (and rate when squeezing), for input / output lengths around zero, one and
+// two blocks, in the absorbing and in the squeezing state. Helpers (permute,
+// padAndPermute, clone, anything extracted later) are interpreted in place;
+// only the Keccak-f core is summarised as "a permutation of this state
+// array". The observed byte-granular transcript is compared with the sponge
+// construction:
+//
+//   - absorbing: input byte j is XORed into state byte (n+j) mod rate, the
+//     permutation runs after every rate-th byte — immediately when a write
+//     fills the block, so that one byte is free when the padding is applied;
+//   - padding (first Read, or Sum): exactly dsbyte is XORed into byte n and
+//     0x80 into byte rate-1 (one byte receiving both when n = rate-1), nothing
+//     is stored plainly, the padded block is permuted, the direction becomes
+//     squeezing; no padding when already squeezing;
+//   - squeezing: output byte j comes from state byte (n+j) mod rate after the
+//     right number of permutations, the permutation runs exactly when the
+//     rate part is dry and more output is wanted;
+//   - Sum: all of this happens on a whole-value copy of the running sponge
+//     (same fill level, rate, domain byte, state array), the receiver's
+//     fields are unchanged, the result is in || first outputLen bytes;
+//   - Write and Sum panic, before any effect, exactly when squeezing.
+type c08Run struct {
+	w      *pathWalker
+	end    string
+	s      *c08Script
+	n, dir int64
+	same   string // "" when rate / outputLen / dsbyte / the state array marker of the receiver are as before
+	ret    []optInt
+	retCls string
+}
+
+func (m *c08M) runSponge(f *ssa.Function, rate, out, n0, dir, l int64) *c08Run {
+	w := m.walker(f)
+	r := f.Params[0].Name()
+	init := map[string]int64{m.fN: n0, m.fRate: rate, m.fDir: dir, m.fOut: out, m.fDS: c08DS, m.fA + c08GenKey: c08Gen}
+	for k, v := range init {
+		w.state[r+"."+k] = v
+	}
+	if len(f.Params) > 1 {
+		w.env.bind(f.Params[1], l)
+		w.cls[f.Params[1]], w.off[f.Params[1]] = "io", 0
+	}
+	k := &c08Run{w: w}
+	k.end = w.walk(f.Blocks[0], nil)
+	k.s = c08Parse(c08Tokens(w))
+	k.n, k.dir = w.state[r+"."+m.fN], w.state[r+"."+m.fDir]
+	for _, fld := range []string{m.fRate, m.fOut, m.fDS, m.fA + c08GenKey} {
+		if w.state[r+"."+fld] != init[fld] && k.same == "" {
+			k.same = fld
 		}
-		p := f.Params[1]
-		cases, bad := 0, ""
-		for _, rate := range []int64{136, 72} {
-			fills := []int64{0, 1, rate - 1}
-			if dir == "Read" {
-				fills = append(fills, rate)
+	}
+	if ret, ok := w.last.(*ssa.Return); ok && k.end == "return" {
+		for _, v := range ret.Results {
+			n, ok := w.env.eval(v)
+			k.ret = append(k.ret, optInt{n, ok})
+		}
+		if len(ret.Results) > 0 {
+			k.retCls, _, _ = m.region(w, ret.Results[0])
+		}
+	}
+	return k
+}
+
+type c08Fails map[string]string
+
+func (fl c08Fails) add(aspect, msg string) {
+	if fl[aspect] == "" {
+		fl[aspect] = msg
+	}
+}
+
+func (fl c08Fails) first(aspects ...string) string {
+	for _, a := range aspects {
+		if fl[a] != "" {
+			return fl[a]
+		}
+	}
+	return ""
+}
+
+func c08EqC(a, b map[int64]int64) bool {
+	if len(a) != len(b) {
+		return false
+	}
+	for k, v := range a {
+		if b[k] != v {
+			return false
+		}
+	}
+	return true
+}
+
+// checkSponge compares one run with the sponge construction.
+func (m *c08M) checkSponge(fl c08Fails, op string, k *c08Run, rate, out, n0, dir, l int64) {
+	id := fmt.Sprintf("%s rate=%d n=%d len=%d", op, rate, n0, l)
+	if dir == 1 {
+		id += " (squeezing)"
+	}
+	s := k.s
+	effects := len(s.gens) > 0 || len(s.other) > 0 || len(s.std) > 0
+	if k.end == "undecided" || k.end == "stop" || k.end == "cutoff" {
+		fl.add("sponge", id+": evaluation ended with "+k.end+" "+k.w.why)
+		return
+	}
+	if s.bad != "" {
+		fl.add("sponge", id+": "+s.bad)
+		return
+	}
+	if k.w.oob {
+		fl.add("sponge", id+": an index or slice expression leaves its bounds")
+	}
+	// --- the documented panics
+	if op != "Read" {
+		if dir == 1 {
+			switch {
+			case k.end != "panic":
+				fl.add("guard", id+": no panic although output has already been read ("+op+" after Read)")
+			case effects || k.n != n0 || k.dir != dir:
+				fl.add("guard", id+": the sponge is modified before the "+op+"-after-Read panic")
 			}
-			for _, n0 := range fills {
-				for _, l := range []int64{0, 1, rate - n0 - 1, rate - n0, rate - n0 + 1, rate, 2 * rate, 2*rate + 5} {
-					if l < 0 || bad != "" {
-						continue
+			return
+		}
+		if k.end == "panic" {
+			fl.add("guard", id+": panics although the sponge is still absorbing")
+			return
+		}
+	}
+	if k.end != "return" {
+		fl.add("sponge", id+": evaluation ended with "+k.end+" "+k.w.why)
+		return
+	}
+	for _, t := range s.other {
+		if strings.HasPrefix(t, "L ") || strings.HasPrefix(t, "U ") {
+			fl.add("sponge", id+": the Keccak-f core does not run on the whole state array: the lanes loaded from / stored back to the array around it do not cover all 200 bytes of one sponge")
+		}
+	}
+	if len(s.other) > 0 || len(s.std) > 0 {
+		all := append(append([]string{}, s.other...), s.std...)
+		if len(all) > 4 {
+			all = append(all[:4], "...")
+		}
+		fl.add("sponge", id+": unexpected effect "+strings.Join(all, "; "))
+	}
+	// --- which sponge is worked on
+	wantGen := "a" + itoa(c08Gen)
+	if op == "Sum" {
+		wantGen = "a" + itoa(c08Gen+1)
+		switch {
+		case s.gens["a"+itoa(c08Gen)]:
+			fl.add("copy", id+": Sum pads and squeezes the running state itself, not a copy of it")
+		case k.n != n0 || k.dir != dir:
+			fl.add("copy", fmt.Sprintf("%s: Sum changes the running state (fill level %d -> %d, direction %d -> %d)", id, n0, k.n, dir, k.dir))
+		case k.same != "":
+			fl.add("copy", id+": Sum changes the receiver's field "+k.same)
+		}
+	}
+	for g := range s.gens {
+		if g != wantGen && !(op == "Sum" && g == "a"+itoa(c08Gen)) {
+			what := "a sponge state that is not the receiver's"
+			if op == "Sum" {
+				what = "a sponge state that is not a whole-value copy of the receiver (state array not copied, or copied more than once)"
+			}
+			fl.add("copy", id+": works on "+what+" ["+g+"]")
+		}
+	}
+	if len(s.plain) > 0 {
+		f := strings.Fields(s.plain[0])
+		what := "state byte " + f[2] + " is overwritten"
+		if len(f) > 3 {
+			switch f[3] {
+			case itoa(c08DS):
+				what += " with the domain byte"
+			default:
+				var v int64
+				fmt.Sscan(f[3], &v)
+				what += fmt.Sprintf(" with %#02x", v)
+			}
+		}
+		fl.add("pad", id+": plain store into the sponge state ("+what+") instead of XOR-merging into it")
+	}
+	// --- expected transcript
+	type outRef = [2]int64
+	expC := map[int64]int64{}
+	expP := map[[2]int64]int64{} // (phase, state byte) -> input byte
+	expO := map[int64]outRef{}   // output byte -> (phase, state byte)
+	var perms, wantN, wantDir, nOut int64
+	wantDir = dir
+	switch op {
+	case "Write":
+		for j := int64(0); j < l; j++ {
+			expP[[2]int64{(n0 + j) / rate, (n0 + j) % rate}] = j
+		}
+		perms, wantN = (n0+l)/rate, (n0+l)%rate
+	case "Read", "Sum":
+		nn, ph := n0, int64(0)
+		nOut = l
+		if op == "Sum" {
+			nOut = out
+		}
+		if dir == 0 {
+			expC[n0] ^= c08DS
+			expC[rate-1] ^= 0x80
+			nn, ph, wantDir = 0, 1, 1
+		}
+		for j := int64(0); j < nOut; j++ {
+			if nn == rate {
+				ph++
+				nn = 0
+			}
+			expO[j] = outRef{ph, nn}
+			nn++
+		}
+		perms, wantN = ph, nn
+	}
+	// --- padding
+	gotC := map[int64]int64{}
+	if len(s.phases) > 0 {
+		gotC = s.phases[0].cxor
+	}
+	for i, p := range s.phases {
+		if i > 0 && len(p.cxor) > 0 {
+			fl.add("pad", fmt.Sprintf("%s: constants are merged into the state after %d permutation(s): %s", id, i, c08ShowC(p.cxor)))
+		}
+	}
+	switch {
+	case len(expC) == 0 && len(gotC) > 0 && op == "Read":
+		fl.add("padonce", id+": padding applied while squeezing ("+c08ShowC(gotC)+")")
+	case len(expC) == 0 && len(gotC) > 0:
+		fl.add("pad", id+": constants merged into the state while absorbing: "+c08ShowC(gotC))
+	case len(expC) > 0 && len(gotC) == 0 && len(s.plain) == 0:
+		fl.add("padonce", id+": output is squeezed from a sponge that was never padded")
+	case !c08EqC(expC, gotC):
+		note := ""
+		if n0 == rate-1 {
+			note = " — with one free byte both markers must combine in that byte"
+		}
+		fl.add("pad", fmt.Sprintf("%s: padding merges %s into the state, expected %s%s", id, c08ShowC(gotC), c08ShowC(expC), note))
+	}
+	if len(expC) > 0 {
+		if int64(len(s.permOn)) < 1 {
+			fl.add("padperm", id+": the padded block is not permuted")
+		}
+		if k.dir != 1 && op == "Read" {
+			fl.add("switch", id+": the sponge is left in the absorbing state after padding")
+		}
+	}
+	// --- permutations
+	if got := int64(len(s.permOn)); got != perms {
+		why := "a block must be permuted as soon as it is full"
+		if op != "Write" {
+			why = "the permutation must run once after padding and then exactly when the rate part has been squeezed dry and more output is wanted"
+		}
+		fl.add("perm", fmt.Sprintf("%s: %d permutation(s), %d expected (%s)", id, got, perms, why))
+	}
+	for _, g := range s.permOn {
+		if g != wantGen {
+			fl.add("copy", id+": the permutation is applied to "+g+", not to the state being worked on")
+		}
+	}
+	// --- absorbed bytes
+	nAbs := int64(0)
+	for ph, p := range s.phases {
+		for _, i := range c08SortedKeys(p.pxor) {
+			for _, src := range p.pxor[i] {
+				nAbs++
+				var j int64
+				if !strings.HasPrefix(src, "io+") {
+					fl.add("sponge", fmt.Sprintf("%s: bytes of %s are absorbed", id, src))
+					continue
+				}
+				fmt.Sscan(src[3:], &j)
+				if want, ok := expP[[2]int64{int64(ph), i}]; !ok || want != j {
+					fl.add("sponge", fmt.Sprintf("%s: input byte %d is XORed into state byte %d after %d permutation(s), expected byte %d after %d", id, j, i, ph, (n0+j)%rate, (n0+j)/rate))
+				}
+			}
+		}
+	}
+	if nAbs != int64(len(expP)) {
+		fl.add("sponge", fmt.Sprintf("%s: %d bytes moved, %d expected", id, nAbs, len(expP)))
+	}
+	// --- squeezed bytes
+	var bufs []string
+	for b := range s.outs {
+		bufs = append(bufs, b)
+	}
+	switch {
+	case len(expO) == 0 && len(bufs) > 0:
+		fl.add("sponge", id+": state bytes are copied out although no output is due")
+	case len(expO) > 0 && len(bufs) != 1:
+		fl.add("sponge", fmt.Sprintf("%s: %d bytes of output expected, state bytes are copied to %d buffers", id, len(expO), len(bufs)))
+	case len(expO) > 0:
+		got := s.outs[bufs[0]]
+		if op == "Read" && bufs[0] != "io" {
+			fl.add("sponge", id+": the output does not go to the caller's buffer")
+		}
+		if len(got) != len(expO) {
+			fl.add("sponge", fmt.Sprintf("%s: %d bytes moved, %d expected", id, len(got), len(expO)))
+		}
+		for _, j := range c08SortedKeys(expO) {
+			g, ok := got[j]
+			if !ok {
+				fl.add("sponge", fmt.Sprintf("%s: output byte %d is never produced", id, j))
+			} else if g != expO[j] {
+				fl.add("sponge", fmt.Sprintf("%s: output byte %d is state byte %d after %d permutation(s), expected state byte %d after %d", id, j, g[1], g[0], expO[j][1], expO[j][0]))
+			}
+		}
+		if op == "Sum" {
+			want := fmt.Sprintf("app(io+0+%d|%s+0+%d)", l, bufs[0], out)
+			if k.retCls != want || len(k.ret) != 1 || !k.ret[0].ok || k.ret[0].n != l+out {
+				fl.add("sponge", fmt.Sprintf("%s: the result is not the argument followed by the %d digest bytes [%s]", id, out, k.retCls))
+			}
+		}
+	}
+	// --- bookkeeping
+	if op != "Sum" {
+		if k.n != wantN {
+			fl.add("sponge", fmt.Sprintf("%s: n afterwards %d, expected %d", id, k.n, wantN))
+		}
+		if k.dir != wantDir && !(op == "Read" && len(expC) > 0) {
+			fl.add("sponge", fmt.Sprintf("%s: direction afterwards %d, expected %d", id, k.dir, wantDir))
+		}
+		if k.same != "" {
+			fl.add("sponge", id+": the field "+k.same+" of the sponge is changed")
+		}
+		if len(k.ret) != 2 || !k.ret[0].ok || k.ret[0].n != l || !k.ret[1].ok || k.ret[1].n != 0 {
+			fl.add("sponge", fmt.Sprintf("%s: does not return (%d, nil)", id, l))
+		}
+	}
+}
+
+func c08Legacy(c *Ctx, m *c08M) {
+	T := m.sponge.Obj().Name()
+	fns := map[string]*ssa.Function{}
+	for _, op := range []string{"Write", "Read", "Sum"} {
+		fns[op] = c.fn("sha3", "(*"+T+")."+op)
+	}
+	fails := map[string]c08Fails{"Write": {}, "Read": {}, "Sum": {}}
+	cases := map[string]int{}
+	for _, rate := range []int64{136, 72} {
+		out := (200 - rate) / 2
+		for _, op := range []string{"Write", "Read", "Sum"} {
+			f := fns[op]
+			if f == nil || len(f.Blocks) == 0 {
+				continue
+			}
+			for _, dir := range []int64{0, 1} {
+				fills := []int64{0, 1, rate - 2, rate - 1}
+				if dir == 1 {
+					fills = []int64{0, 1, rate - 1, rate}
+				}
+				for _, n0 := range fills {
+					lens := []int64{0, 1, rate - n0 - 1, rate - n0, rate - n0 + 1, rate, 2 * rate, 2*rate + 5}
+					if op == "Sum" {
+						lens = []int64{0, 5}
 					}
-					w := &pathWalker{env: newEnv(), lengths: true, maxSteps: 8000, opaque: map[string]bool{"permute": true, "padAndPermute": true}}
-					w.env.bind(p, l)
-					st := int64(0)
-					if dir == "Read" {
-						st = 1 // already squeezing: padding is decided by C08.pad
+					if op != "Read" && dir == 1 {
+						lens = []int64{0, 3}
 					}
-					w.state = map[string]int64{"d.n": n0, "d.rate": rate, "d.state": st}
-					permutes, moved := int64(0), int64(0)
-					problem := ""
-					w.onCall = func(w *pathWalker, ci ssa.CallInstruction) string {
-						cc := ci.Common()
-						nm := short(calleeName(cc))
-						switch {
-						case strings.HasSuffix(nm, "sha3.state).permute"):
-							permutes++
-							if dir == "Write" && w.state["d.n"] != rate {
-								problem = fmt.Sprintf("permutation applied with %d of %d rate bytes absorbed", w.state["d.n"], rate)
-							}
-							if dir == "Read" && w.state["d.n"] != rate {
-								problem = fmt.Sprintf("permutation applied with %d of %d rate bytes squeezed", w.state["d.n"], rate)
-							}
-							w.state["d.n"] = 0
-						case nm == "crypto/subtle.XORBytes":
-							a, ok1 := w.env.eval(cc.Args[0])
-							b, ok2 := w.env.eval(cc.Args[1])
-							x, ok3 := w.env.eval(cc.Args[2])
-							if !ok1 || !ok2 || !ok3 {
-								problem = "XORBytes with unevaluated lengths"
-								return ""
-							}
-							k := min(b, x)
-							if a < k {
-								problem = "XORBytes destination shorter than its inputs (panics)"
-							}
-							w.env.bind(ci.(ssa.Value), k)
-							moved += k
-							// destination and first source are the rate part from n
-							for _, arg := range []ssa.Value{cc.Args[0], cc.Args[1]} {
-								sl, isS := arg.(*ssa.Slice)
-								if !isS || !strings.HasSuffix(accessPath(sl.X), ".a") {
-									problem = "absorption does not XOR into the sponge state"
-								} else if lo, _ := w.env.eval(sl.Low); lo != w.state["d.n"] {
-									problem = fmt.Sprintf("absorption at offset %d while n = %d", lo, w.state["d.n"])
-								}
-							}
-						case nm == "builtin:copy":
-							d, ok1 := w.env.eval(cc.Args[0])
-							s, ok2 := w.env.eval(cc.Args[1])
-							if ok1 && ok2 {
-								moved += min(d, s)
-								if sl, isS := cc.Args[1].(*ssa.Slice); isS && strings.HasSuffix(accessPath(sl.X), ".a") {
-									if lo, _ := w.env.eval(sl.Low); lo != w.state["d.n"] {
-										problem = fmt.Sprintf("output taken from offset %d while n = %d", lo, w.state["d.n"])
-									}
-								}
-							}
-						case strings.HasSuffix(nm, "sha3.state).padAndPermute"):
-							problem = "padding applied while squeezing"
+					seen := map[int64]bool{}
+					for _, l := range lens {
+						if l < 0 || seen[l] {
+							continue
 						}
-						return ""
-					}
-					end := w.walk(f.Blocks[0], nil)
-					cases++
-					id := fmt.Sprintf("%s rate=%d n=%d len=%d", dir, rate, n0, l)
-					if end != "return" {
-						bad = id + ": evaluation ended with " + end + " " + w.why
-						continue
-					}
-					var wantPerm, wantN int64
-					if dir == "Write" {
-						wantPerm, wantN = (n0+l)/rate, (n0+l)%rate
-					} else {
-						// squeeze: permute each time n == rate before taking more
-						nn, left := n0, l
-						for left > 0 {
-							if nn == rate {
-								wantPerm++
-								nn = 0
-							}
-							k := min(left, rate-nn)
-							nn += k
-							left -= k
-						}
-						wantN = nn
-					}
-					ret, _ := w.env.eval(retVal(w.last.(*ssa.Return), 0))
-					switch {
-					case problem != "":
-						bad = id + ": " + problem
-					case moved != l:
-						bad = fmt.Sprintf("%s: %d bytes moved, %d expected", id, moved, l)
-					case permutes != wantPerm:
-						bad = fmt.Sprintf("%s: %d permutation(s), %d expected (a block must be permuted as soon as it is full)", id, permutes, wantPerm)
-					case w.state["d.n"] != wantN:
-						bad = fmt.Sprintf("%s: n afterwards %d, expected %d", id, w.state["d.n"], wantN)
-					case ret != l:
-						bad = fmt.Sprintf("%s: returns %d", id, ret)
-					case w.oob:
-						bad = id + ": a slice expression leaves its bounds"
+						seen[l] = true
+						k := m.runSponge(f, rate, out, n0, dir, l)
+						m.checkSponge(fails[op], op, k, rate, out, n0, dir, l)
+						cases[op]++
 					}
 				}
 			}
 		}
-		c.check(bad == "" && cases > 40, "C08.sponge", "sha3.(*state)."+dir, f, fmt.Sprintf("%d (rate, fill, length) cases: bytes moved, permutation count and fill level as the sponge construction requires", cases), bad)
 	}
+	obl := func(rule, construct, op string, minCases int, okDetail string, aspects ...string) {
+		f := fns[op]
+		if f == nil {
+			return
+		}
+		bad := fails[op].first(aspects...)
+		if bad == "" && cases[op] < minCases {
+			bad = fmt.Sprintf("only %d cases evaluated", cases[op])
+		}
+		c.check(bad == "", rule, construct, f, fmt.Sprintf("%d (rate, fill, length, direction) cases: %s", cases[op], okDetail), bad)
+	}
+	// every aspect is reported once; an evaluation that cannot be followed fails the sponge obligation of that function
+	obl("C08.sponge", "sha3.(*"+T+").Write", "Write", 40, "input byte j is XORed into state byte (n+j) mod rate, fill level and result as the sponge construction requires", "perm", "sponge", "copy", "padonce")
+	obl("C08.sponge", "sha3.(*"+T+").Read", "Read", 80, "output byte j is state byte (n+j) mod rate after the right number of permutations; fill level and result as required", "padonce", "sponge", "perm", "copy")
+	obl("C08.sponge", "sha3.(*"+T+").Sum", "Sum", 16, "pads, permutes once and squeezes outputLen bytes; the result is the argument followed by the digest", "sponge", "perm", "padonce", "padperm")
+	obl("C08.sum-pure", "sha3.(*"+T+").Sum works on a copy", "Sum", 16, "padding, permutation and squeezing happen on a whole-value copy of the running sponge; every field of the receiver is as before", "copy")
+	obl("C08.guards", "sha3.(*"+T+").Write", "Write", 40, "panics, before any effect, exactly when output has already been read", "guard")
+	obl("C08.guards", "sha3.(*"+T+").Sum", "Sum", 16, "panics, before any effect, exactly when output has already been read", "guard")
+	obl("C08.pad", "sha3.(*"+T+").Read pads once", "Read", 80, "the padding is applied exactly when the sponge is still absorbing", "padonce")
+	obl("C08.pad", "padding bytes merged by XOR", "Read", 80, "a[n] ^= dsbyte and a[rate-1] ^= 0x80 and nothing else: the two markers combine when only one byte is free", "pad")
+	obl("C08.pad", "padding bytes merged by XOR (Sum)", "Sum", 16, "the copy is padded with a[n] ^= dsbyte and a[rate-1] ^= 0x80", "pad")
+	obl("C08.pad", "padding switches to squeezing", "Read", 80, "the direction is squeezing after the first Read", "switch")
+	obl("C08.pad", "the padded block is permuted", "Read", 80, "the permutation runs between padding and the first output byte", "padperm")
+	obl("C08.pad", "sha3.(*"+T+").Write permutes full blocks", "Write", 40, "the permutation runs exactly when n reaches rate", "perm")
 }
